@@ -150,6 +150,8 @@ where
     let degree = common_data.degree();
 
     set_lookup_wires(prover_data, common_data, &mut partition_witness)?;
+    #[cfg(feature = "verif_hooks")]
+    crate::verif_hooks::hook_witness(&mut partition_witness);
 
     let public_inputs = partition_witness.get_targets(&prover_data.public_inputs);
     let public_inputs_hash = C::InnerHasher::hash_no_pad(&public_inputs);
@@ -222,6 +224,8 @@ where
         "compute partial products",
         all_wires_permutation_partial_products(&witness, &betas, &gammas, prover_data, common_data)
     );
+    #[cfg(feature = "verif_hooks")]
+    crate::verif_hooks::hook_zs(&mut partial_products_and_zs);
 
     // Z is expected at the front of our batch; see `zs_range` and `partial_products_range`.
     let plonk_z_vecs = partial_products_and_zs
@@ -273,6 +277,8 @@ where
         )
     );
 
+    #[cfg(feature = "verif_hooks")]
+    let quotient_polys = crate::verif_hooks::hook_quotient(quotient_polys, quotient_degree);
     let all_quotient_poly_chunks: Vec<PolynomialCoeffs<F>> = timed!(
         timing,
         "split up quotient polys",
